@@ -4,5 +4,5 @@
 unsigned c19_unsigned_norms() {
   OpenVolumeMesh::Geometry::Vec3ui v(1u, 2u, 3u);
   OpenVolumeMesh::Geometry::Vec2ui w(1u, 2u);
-  return v.l1_norm() + v.mean_abs() + w.l1_norm() + w.mean_abs();
+  return v.l1_norm() + v.mean_abs() + w.l1_norm() + w.mean_abs() + v.max_abs() + v.min_abs() + v.l8_norm();
 }
